@@ -1,6 +1,6 @@
 (* Properties_C12.v — obligations of property C12 (every reported clock time is the broadcast UTC
    instant shifted by the offset). *)
-Require Import ObsRun Lemmas_Callbacks Lemmas_Leaf.
+Require Import ObsRun Lemmas_Callbacks Lemmas_LeafCt.
 Local Open Scope Z_scope.
 
 (* For every reachable state and every call: a 4A group (B/4096 = 4, version bit 0) with
@@ -34,20 +34,21 @@ Proof. vm_compute. repeat split. Qed.
    hour and day carries in int8_t / uint32_t arithmetic, civil-from-days conversion, field stores),
    rdsparser_ct_get_offset and the four 4A field extractors are translated on every run from clang's
    typed AST of src/ct.c and src/group4.c (tools/cleaf.py -> GenLeaf.v).  For ALL parameter values of
-   the C types (uint32_t mjd; int8_t hour, minute, offset) the translated function returns exactly
-   what the model's ct_init returns, so C12_observer and C12_calendar_all_days are statements about
+   the C types (uint32_t mjd; int8_t hour, minute, offset) the translated function, seen through its return value and the six translated
+   getters (ct_view), is exactly the model's ct_init, so C12_observer and C12_calendar_all_days are statements about
    the code as compiled, not about a transcription. *)
 Theorem C12_code_ct_init : forall mjd hour minute offset,
   0 <= mjd < 4294967296 -> -128 <= hour < 128 -> -128 <= minute < 128 -> -128 <= offset < 128 ->
-  ct_view (c_ct_init mjd hour minute offset) = ct_init mjd hour minute offset.
+  ct_view mjd hour minute offset = ct_init mjd hour minute offset.
 Proof. exact leaf_ct_init. Qed.
 Print Assumptions C12_code_ct_init.
 Theorem C12_code_fields : forall d0 d1 d2 d3, 0 <= d1 < 65536 -> 0 <= d2 < 65536 -> 0 <= d3 < 65536 ->
   c_get_mjd d0 d1 d2 d3 = get_mjd d1 d2 /\ c_get_hour d0 d1 d2 d3 = get_hour d2 d3
   /\ c_get_minute d0 d1 d2 d3 = get_minute d3 /\ c_get_offset d0 d1 d2 d3 = get_offset d3.
 Proof.
-  intros d0 d1 d2 d3 H1 H2 H3. repeat split;
-    [apply leaf_get_mjd|apply leaf_get_hour|apply leaf_get_minute|apply leaf_get_offset]; assumption.
+  intros d0 d1 d2 d3 H1 H2 H3.
+  split; [apply leaf_get_mjd; assumption|]. split; [apply leaf_get_hour; assumption|].
+  split; [apply leaf_get_minute; assumption|apply leaf_get_offset; assumption].
 Qed.
 Print Assumptions C12_code_fields.
 
